@@ -11,7 +11,7 @@ from vlib.mc import enum as E
 PROPERTY = 'C04'
 LEVEL = 'exploration'
 ENGINE = 'C'
-TECHNIQUE = ('bounded-exhaustive enumeration of the product keys x case forms x '
+TECHNIQUE = ('stateless bounded model checking: complete enumeration of the product keys x case forms x '
              'renderings x per-rendering secret alphabet x contexts x masks '
              'against a template reference')
 LEVEL_TEXT = ('Every one of the 35 keys in four letter-case/suffix forms, in '
